@@ -57,7 +57,7 @@ func genC15(t *rapid.T) c15Case {
 		c.Cfg.Max = rapid.IntRange(1, 20).Draw(t, "max")
 		c.Cfg.Initial = rapid.IntRange(1, c.Cfg.Max).Draw(t, "initial")
 		c.Cfg.NoLoad = rapid.SampledFrom([]string{"", "", "minimum", "minimum-wrapped"}).Draw(t, "noload") // the caller may hand in the minimum measurement itself: same promise
-		c.Cfg.ProbeMult = rapid.IntRange(1, 50).Draw(t, "pm")                           // explicit: the staleness bound must not depend on what the library's default happens to be
+		c.Cfg.ProbeMult = rapid.IntRange(1, 50).Draw(t, "pm")                                              // explicit: the staleness bound must not depend on what the library's default happens to be
 		m := c.Cfg.ProbeMult
 		if m <= 0 {
 			m = 30
